@@ -9,10 +9,12 @@ import PauLieVerif.Model.CmdDecomp
 import PauLieVerif.Model.CmdTwoLocal
 import PauLieVerif.Model.CmdCompiler
 import PauLieVerif.Model.CmdSecondMoment
+import PauLieVerif.Model.CmdAlgebraNames
+import PauLieVerif.Model.CmdGraphExtra
 
 open PauLie
 
-def handlers : List (String → Option String) := [CmdPS.handle, CmdGraph.handle, CmdClassify.handle, CmdCollection.handle, CmdOptimise.handle, CmdOtoc.handle, CmdLinear.handle, CmdDecomp.handle, CmdTwoLocal.handle, CmdCompiler.handle, CmdSecondMoment.handle]
+def handlers : List (String → Option String) := [CmdPS.handle, CmdGraph.handle, CmdClassify.handle, CmdCollection.handle, CmdOptimise.handle, CmdOtoc.handle, CmdLinear.handle, CmdDecomp.handle, CmdTwoLocal.handle, CmdCompiler.handle, CmdSecondMoment.handle, CmdAlgebraNames.handle, CmdGraphExtra.handle]
 
 def respond (line : String) : String :=
   match handlers.findSome? (fun h => h line) with
